@@ -573,7 +573,12 @@ spiftool_num_words(const spif_charptr_t str)
           default:
               delim = 0;
         }
-        for (; str[i] && !IS_DELIM(str[i]); i++);
+        for (; str[i] && !IS_DELIM(str[i]); i++) {
+            /* As in get_word(), a backslash makes a following quote part of the word. */
+            if ((str[i] == '\\') && (str[i + 1] == '\'' || str[i + 1] == '\"')) {
+                i++;
+            }
+        }
         switch (str[i]) {
           case '\"':
           case '\'':
